@@ -141,6 +141,7 @@ def register_client_task(R):
         # caught GeneratorExit (the task's own coroutine is being closed), which ThrowAction.asend turns into aclose() + re-raise
         c.env["ghost_on_return"] = {"actions": "ghost.actions + ite(typeof(result, 'ThrowAction') and implies(typeof(result, 'ThrowAction'), typeof(result.exception, 'GeneratorExit')), 0, 1)"}
         c.modifies.append("ghost.actions")
+    R.contract("AsyncStreamServer.is_closing", result="bool", trusted=True, ensures=["True"])  # the LISTENER's state: says nothing about a client connection
     R.shape("AsyncStreamServer", cls="AsyncStreamServer",
             fields={"__protocol": "StreamProtocol", "__max_recv_size": "int"},
             invariant=[("read-size-positive", "self.__max_recv_size >= 1")])
@@ -188,7 +189,9 @@ def register_client_task_variant(R, variant, shape, cons_inv, gen, closed_once, 
             ("no-generator-left-running-and-the-live-one-closed-exactly-once", closed_once, "C15"),
             ("every-action-produced-by-the-receiver-was-handed-to-the-handler-exactly-once", sent_once, "C15"),
         ]},
-        env={"call_hints": {"next": [("the-receiver-waits-exactly-the-timeout-the-handler-just-yielded", "arg('timeout') == pre(ghost.last_timeout)", "C15")]}},
+        env={"call_hints": {"next": [("the-receiver-waits-exactly-the-timeout-the-handler-just-yielded", "arg('timeout') == pre(ghost.last_timeout)", "C15"),
+                                     ("once-the-connection-is-being-closed (by the handler or anyone) no further request is read or handed to the handler",
+                                      "not pre(transport.close_requested)", "C15 C14")]}},
         modifies=["transport.close_requested", "ghost.delivered", "ghost.actions", "ghost.live_gens", "ghost.last_timeout", "ghost.IN", "ghost.recv_calls", "ghost.EOF", "ghost.io_errors"],
         tags="C15 C14",
     )
